@@ -75,6 +75,11 @@ CLAIMED = {
         "Static: a rest (None) reaches place_notes of the last bar with no instrument and with every instrument class, a non-rest is placed only after can_play_notes answered true and raises InstrumentRangeError otherwise; note_in_range is lo <= note <= hi, can_play_notes unwraps containers/lists and requires all notes; a new bar is appended only for an empty track or a full last bar, built from the last bar's key and meter, and the result of place_notes on the last bar is returned; get_notes yields every (beat, value, content) of every bar in order, test_integrity checks all but the last bar; from_chords doubles the value per nesting level, places None as a rest and splits a refused chord into value_left and the remainder; add_track selects exactly the new index, add_note reaches exactly the selected tracks, '+' dispatches on the operand kind.",
         "No-loss/no-reorder over arbitrary add sequences follows from the per-call rules by induction and is not explored. Trusted: CPython ast, abstract evaluator (variants/c14.py), C13.",
         "DESIGN.md section 2, C14"),
+    "C15": (
+        "effect / alias / escape analysis: must-rebind analysis of class-level mutable defaults vs package-wide in-place mutation sites; escape analysis of memo tables by double abstract evaluation with object-identity comparison; parameter-mutation dataflow with alias tracking; who-may-write ownership table of module state and mutable default arguments; identity check of container copies; positive fixtures for zero-count rules",
+        "Static: over core, containers, the MIDI writers/sequencer and extra.fft (492 functions): every class-level list/dict is rebound per instance on every __init__ path or never mutated in place; for a battery of 30+ public list-returning functions (all memoised ones, every function/numeral accessor, to_chords, from_shorthand, scales) two calls share no mutable object with each other or with module-level containers; no function mutates a parameter or an alias of it in place (two frozen, reasoned exceptions); module-level mutable state is written only by its frozen owner, no mutable default arguments; NoteContainer(other)/add_notes(other) do not share Note objects and Note.dynamics is fresh.",
+        "Not decided: equality of fft._find_log_index's accelerated and cold paths (ownership of _last_asked only); value-independence of arbitrary call histories beyond purity + memo transparency. Trusted: CPython ast, effect analysis + evaluator (variants/c15.py, fixtures/fixpkg), the frozen tables in rules/c15.py.",
+        "DESIGN.md section 2, C15"),
     "C06": (
         "offset-domain abstract interpretation of every chord builder (interval constructors summarised by their C02 post-condition) against a meaning-keyed chord-theory oracle; table agreement; abstract evaluation of the shorthand parser on root shapes x keys, aliases, slash, polychord, NC, list and malformed classes",
         "Static: each of the shorthand builders (incl. the lambda) yields, for 7 root letters x arbitrary accidentals, exactly the (letter, semitone) list its meaning prescribes; chord_shorthand and chord_shorthand_meaning have equal key sets; from_shorthand maps every key, every min/mi/-/maj/ma alias spelling, slash basses, polychords, NC and list input to the right builder result and rejects unknown suffixes / bad roots / bad basses with the documented errors.",
